@@ -372,9 +372,28 @@ fn strategy() -> BoxedStrategy<OwnerCase> {
                 2 => Just(TOp::WriteClose),
                 2 => Just(TOp::Nop),
             ];
-            (prop::collection::vec(prop::collection::vec(op, n), 2..9), Just(n), any::<bool>())
+            (prop::collection::vec(prop::collection::vec(op, n), 2..9), Just(n), any::<bool>(), 0u8..3, 0usize..6)
         })
-        .prop_map(|(rounds, threads, small_memtable)| OwnerCase { rounds, threads, small_memtable })
+        .prop_map(|(mut rounds, threads, small_memtable, pattern, who)| {
+            // structured tail (2 of 3 cases): somebody creates and closes a database, then one thread
+            // destroys it while all others keep trying to open it, and everybody closes again
+            if pattern > 0 {
+                let w = who % threads;
+                let mut open = vec![TOp::Nop; threads];
+                open[w] = TOp::Open;
+                let mut fill = vec![TOp::Nop; threads];
+                fill[w] = TOp::WriteClose;
+                let mut race = vec![TOp::OpenRetry; threads];
+                race[(w + pattern as usize) % threads] = TOp::Destroy;
+                rounds.push(vec![TOp::Close; threads]);
+                rounds.push(open);
+                rounds.push(fill);
+                rounds.push(race);
+                rounds.push(vec![TOp::Write; threads]);
+                rounds.push(vec![TOp::Close; threads]);
+            }
+            OwnerCase { rounds, threads, small_memtable }
+        })
         .boxed()
 }
 
